@@ -175,20 +175,20 @@ def level2_configs(tier):
     if tier == "quick":
         for rev in (False, True):
             cfgs.append(dict(KR=3, KQ=3, NS=2, rev=rev, shapes=SHAPES_QUICK, sj="0"))
-        cfgs.append(dict(KR=3, KQ=2, NS=3, rev=False, shapes=["P", "PP"], sj="0"))
         # two 4-pair segments that may overlap by two labels and still be chain-admissible (merge index strictly inside the overlap)
         cfgs.append(dict(KR=6, KQ=6, NS=2, rev=False, shapes=["PPPP"], sj="0"))
         cfgs.append(dict(KR=6, KQ=6, NS=2, rev=True, shapes=["PPPP"], sj="0", dp="1/2"))
         # ladder of two peaks with a small indel inside the overlap (unpaired labels inside the conflicting sub-runs)
         cfgs.append(dict(KR=6, KQ=6, NS=2, rev=False, shapes=["PPRRP", "PQPRP"], sj="0", distinct_shapes=True))
         # a 4-pair segment against one with an unpaired label inside the overlap (different numbers of unpaired positions before the cut)
-        cfgs.append(dict(KR=6, KQ=6, NS=2, rev=True, shapes=[], sj="0", shapes_per_segment=[["PPPP"], ["PQPP", "PRPP", "PPQP", "PPRP"]]))
+        cfgs.append(dict(KR=6, KQ=6, NS=2, rev=True, shapes=[], sj="0", shapes_per_segment=[["PPPP"], ["PQPP", "PPRP"]]))
         # reverse strand: an unpaired query label inside the earlier segment next to the overlap
         cfgs.append(dict(KR=5, KQ=5, NS=2, rev=True, shapes=[], sj="0", shapes_per_segment=[["PQP", "PQPP", "PPQP"], ["PP", "PPP"]]))
     else:
         for rev in (False, True):
             cfgs.append(dict(KR=4, KQ=4, NS=2, rev=rev, shapes=SHAPES_THOROUGH, sj="0"))
             cfgs.append(dict(KR=4, KQ=3, NS=3, rev=rev, shapes=SHAPES_QUICK, sj="0"))
+            cfgs.append(dict(KR=6, KQ=6, NS=2, rev=rev, shapes=[], sj="0", shapes_per_segment=[["PPPP"], ["PQPP", "PRPP", "PPQP", "PPRP"]]))
             cfgs.append(dict(KR=6, KQ=6, NS=2, rev=rev, shapes=["PPPP", "PPRRP", "PQPRP", "PRPQP", "PPQQP"], sj="0"))
             cfgs.append(dict(KR=5, KQ=5, NS=2, rev=rev, shapes=[], sj="0",
                              shapes_per_segment=[["PQP", "PRP", "PQPP", "PPQP", "PRPP", "PPRP"], ["PP", "PPP", "PQP", "PRP"]]))
@@ -204,7 +204,7 @@ def level2_unit(prop):
                    "src.alignment.segment_chainer:SequentialityScorer.getScore", "src.alignment.segments:AlignmentSegment",
                    "src.alignment.segments:_SegmentPairWithConflict", "src.alignment.alignment_results:AlignmentResultRow.create",
                    "src.alignment.alignment_position_scorer:AlignmentPositionScorer", "src.alignment.alignment_position:AlignedPair"],
-        bounds="2 segments over 3 x 3 labels, 3 segments over 3 x 2 labels, two 4-pair segments over 6 x 6 labels (quick), 2-3 segments over 4 x 4 labels "
+        bounds="2 segments over 3 x 3 labels, two 4-/5-position segments of selected shape families over 5 x 5 and 6 x 6 labels (quick), 2-3 segments over 4 x 4 labels "
                "and 2 segments over 5 x 5 (thorough); shapes over "
                "{P pair, R unpaired reference label, Q unpaired query label} of length <= 3 (quick) / 4 (thorough), any placement, both strands; "
                "coordinates, seeds and scoring parameters symbolic; join multiplier 0",
